@@ -72,6 +72,34 @@ let () =
           String.concat "" (List.map (fun r -> String.concat "" (List.map (fun x -> if x then "1" else "0") r)) rows)
         else "-" in
       let strict = strict ^ " lg=" ^ lg in
+      (* the model of the DSATUR branch and bound (Invariants/DsaturModel.v): chi with the exact
+         colouring, IsKColorable for k = 0..n+1 with the exact witnesses, the chromatic index with
+         the exact edge array *)
+      let zs l = ints (List.map int_of_z l) in
+      let show_col = function Some c -> zs c | None -> "nil" in
+      let cn_res = chromatic_number_dsatur g in
+      let k_res = List.init (n + 2) (fun k -> is_k_colorable g (z_of_int k)) in
+      let ds = match cn_res with
+        | Ok (chi, c) -> Printf.sprintf "%d:%s" (int_of_z chi) (show_col c)
+        | Panic -> "panic" | Fuel -> "fuel" in
+      let dk = String.concat "/" (List.map (fun r ->
+          match r with
+          | Ok (true, c) -> "1:" ^ show_col c
+          | Ok (false, c) -> "0:" ^ show_col c
+          | Panic -> "panic" | Fuel -> "fuel") k_res) in
+      let dci = if m <= 22 then
+          (match chromatic_index_dsatur g with
+           | Ok (ci, c) -> Printf.sprintf "%d:%s" (int_of_z ci) (show_col c)
+           | Panic -> "panic" | Fuel -> "fuel")
+        else "-" in
+      let strict = Printf.sprintf "%s ds=%s dk=%s dci=%s" strict ds dk dci in
+      (* the DSATUR model must agree with the proved oracles (it is proved to: DsaturProofs) *)
+      let strict =
+        let chi_ref = int_of_nat (chromatic_number_ref g) in
+        let ok_chi = (match cn_res with Ok (chi, _) -> int_of_z chi = chi_ref | _ -> false) in
+        let ok_k = List.for_all2 (fun k r -> match r with
+            | Ok (b, _) -> b = k_colourable_ref g (nat_of_int k) | _ -> false) (List.init (n + 2) (fun k -> k)) k_res in
+        if ok_chi && ok_k then strict else strict ^ " DSATUR-MODEL-DISAGREES-WITH-ORACLE" in
       let b = Buffer.create 256 in
       Printf.bprintf b "n=%d m=%d w=%d a=%d mc=%d:%s chi=%d kc=%s dg=%s gr=%s pr=%s" n m
         w_ref a_ref
